@@ -248,13 +248,16 @@ func (l *Lexer) readOctalNumber() (string, token.Type) {
 	return l.input[position:l.position], token.INT
 }
 
-// readString reads a string literal
-func (l *Lexer) readString(delimiter byte) string {
+// readString reads a string literal. The second result is false when the
+// input ended before the closing delimiter.
+func (l *Lexer) readString(delimiter byte) (string, bool) {
 	var result strings.Builder
+	terminated := true
 
 	for {
 		l.ReadChar()
 		if l.CurrentChar == 0 {
+			terminated = false
 			break
 		}
 		// Handle escape sequences
@@ -392,14 +395,18 @@ func (l *Lexer) readString(delimiter byte) string {
 		}
 		result.WriteByte(l.CurrentChar)
 	}
-	return result.String()
+	return result.String(), terminated
 }
 
-func (l *Lexer) readRawString() string {
+// readRawString reads a backtick literal. The second result is false when the
+// input ended before the closing backtick.
+func (l *Lexer) readRawString() (string, bool) {
 	var result strings.Builder
+	terminated := true
 	for {
 		l.ReadChar()
 		if l.CurrentChar == 0 {
+			terminated = false
 			break
 		}
 		// Handle escaped backticks
@@ -416,7 +423,7 @@ func (l *Lexer) readRawString() string {
 		}
 		result.WriteByte(l.CurrentChar)
 	}
-	return result.String()
+	return result.String(), terminated
 }
 
 // NextToken generates and returns the next token from the input stream.
